@@ -87,6 +87,10 @@ def parseDec (s : List Char) : Option Dec :=
     else if c = '+' then (parseUnsignedDec r).map (fun (n, p) => ⟨(n : Int), p⟩)
     else (parseUnsignedDec (c :: r)).map (fun (n, p) => ⟨(n : Int), p⟩)
 
+/-- The tier bounds are matched by `\d+\.?\d*`: no sign. -/
+def parseDecNonneg (s : List Char) : Option Dec :=
+  (parseUnsignedDec s).map (fun (n, p) => ⟨(n : Int), p⟩)
+
 /-- `int(s)` for the exponent: sign, at least one digit. -/
 def parseInt (s : List Char) : Option Int :=
   match s with
@@ -235,7 +239,7 @@ def readCtmLineText (wc2utt : Option (String × String → Option String)) (line
 /-- `read_ctm` on the characters of a file (after the file object's newline translation). -/
 def readCtmText (wc2utt : Option (String × String → Option String)) (text : List Char) :
     Except CtmErr Transcripts :=
-  match (pyLines text).mapM (readCtmLineText wc2utt) with
+  match collect ((pyLines text).map (readCtmLineText wc2utt)) with
   | .error e => .error e
   | .ok kvs => .ok ((group (kvs.filterMap id)).map (fun (u, t) => (u, t.mergeSort startLe)))
 
@@ -245,8 +249,17 @@ def line (s : List Char) : List Char := s ++ ['\n']
 
 def quoted (s : List Char) : List Char := '"' :: (s ++ ['"'])
 
-def tgHeader0 : List Char := "File type = \"ooTextFile\"".toList
-def tgHeader1 : List Char := "Object class = \"TextGrid\"".toList
+/-- `File type = "ooTextFile"`, as characters (string literals do not reduce well in proofs). -/
+def tgHeader0 : List Char :=
+  ['F', 'i', 'l', 'e', ' ', 't', 'y', 'p', 'e', ' ', '=', ' ', '"', 'o', 'o', 'T', 'e', 'x', 't', 'F', 'i', 'l', 'e', '"']
+/-- `Object class = "TextGrid"`. -/
+def tgHeader1 : List Char :=
+  ['O', 'b', 'j', 'e', 'c', 't', ' ', 'c', 'l', 'a', 's', 's', ' ', '=', ' ', '"', 'T', 'e', 'x', 't', 'G', 'r', 'i', 'd', '"']
+/-- `<exists>`. -/
+def tgExists : List Char := ['<', 'e', 'x', 'i', 's', 't', 's', '>']
+/-- `TextTier` / `IntervalTier`. -/
+def clsText : List Char := ['T', 'e', 'x', 't', 'T', 'i', 'e', 'r']
+def clsInterval : List Char := ['I', 'n', 't', 'e', 'r', 'v', 'a', 'l', 'T', 'i', 'e', 'r']
 
 def pointChars (e : Dec × String) : List Char :=
   line e.1.chars ++ line (quoted e.2.toList)
@@ -259,8 +272,8 @@ def TgBody.chars : TgBody → List Char
   | .intervals l => (l.map intervalChars).flatten
 
 def TgBody.className : TgBody → List Char
-  | .points _ => "TextTier".toList
-  | .intervals _ => "IntervalTier".toList
+  | .points _ => clsText
+  | .intervals _ => clsInterval
 
 /-- Everything of one tier: class, name, bounds, size, entries. -/
 def tierChars (name : String) (tmin tmax : Dec) (body : TgBody) : List Char :=
@@ -270,7 +283,7 @@ def tierChars (name : String) (tmin tmax : Dec) (body : TgBody) : List Char :=
 /-- The characters `write_textgrid` writes. -/
 def TgFile.chars (f : TgFile) : List Char :=
   line tgHeader0 ++ (line tgHeader1 ++ (line f.xmin.chars ++ (line f.xmax.chars ++
-    (line "<exists>".toList ++ (line "1".toList ++ tierChars f.name f.tmin f.tmax f.body)))))
+    (line tgExists ++ (line ['1'] ++ tierChars f.name f.tmin f.tmax f.body)))))
 
 /-- Up to the next `'\n'` (exclusive) and what follows it. -/
 def takeLine (s : List Char) : List Char × List Char :=
@@ -329,11 +342,11 @@ def parseTier (s : List Char) : Option (String × Dec × Dec × TgBody) :=
   let tmin := takeLine name.2
   let tmax := takeLine tmin.2
   let size := takeLine tmax.2
-  match unquote cls.1, unquote name.1, parseDec tmin.1, parseDec tmax.1, parseNat size.1 with
+  match unquote cls.1, unquote name.1, parseDecNonneg tmin.1, parseDecNonneg tmax.1, parseNat size.1 with
   | some c, some n, some a, some b, some _ =>
-    if c = "TextTier".toList then
+    if c = clsText then
       (parsePoints (size.2.length + 1) size.2).map (fun l => (String.ofList n, a, b, .points l))
-    else if c = "IntervalTier".toList then
+    else if c = clsInterval then
       (parseIntervals (size.2.length + 1) size.2).map (fun l => (String.ofList n, a, b, .intervals l))
     else none
   | _, _, _, _, _ => none
